@@ -1141,36 +1141,87 @@ theorem allcloseScalar_atol (p q t : Quantity β) (hp : (PyVal.qty p).WF) (hpos 
     have ht' : ¬ q.unit.dims = t.unit.dims := hd ▸ ht
     simp only [allcloseScalar, addLike, PyVal.asQuantity, hd, if_true, ht', if_false]
 
-theorem allcloseArrays_go (rtol : β) (atol : Option (PyVal β)) (a b : List (PyVal β)) (acc : Bool)
-    (hok : List.Forall₂ (fun x y => ∃ r, allcloseScalar x y rtol atol = .ok r) a b) :
-    ∃ r, allcloseArrays.go rtol atol a b acc = .ok r ∧
-      (r = true ↔ acc = true ∧ List.Forall₂ (fun x y => allcloseScalar x y rtol atol = .ok true) a b) := by
-  induction hok generalizing acc with
-  | nil => exact ⟨acc, by simp [allcloseArrays.go], by simp⟩
-  | @cons x y xs ys hxy _ ih =>
-    obtain ⟨r0, hr0⟩ := hxy
-    obtain ⟨r, h1, h2⟩ := ih (acc && r0)
-    refine ⟨r, by simp [allcloseArrays.go, hr0, h1], ?_⟩
+theorem allcloseAll_spec (rtol : β) (ts : List (PyVal β × PyVal β × Option (PyVal β))) (acc : Bool)
+    (hok : ∀ t ∈ ts, ∃ r, allcloseScalar t.1 t.2.1 rtol t.2.2 = .ok r) :
+    ∃ r, allcloseAll rtol ts acc = .ok r ∧
+      (r = true ↔ acc = true ∧ ∀ t ∈ ts, allcloseScalar t.1 t.2.1 rtol t.2.2 = .ok true) := by
+  induction ts generalizing acc with
+  | nil => exact ⟨acc, by simp [allcloseAll], by simp⟩
+  | cons t r ih =>
+    obtain ⟨x, y, at'⟩ := t
+    obtain ⟨r0, hr0⟩ := hok (x, y, at') (by simp)
+    obtain ⟨res, h1, h2⟩ := ih (acc && r0) (fun t ht => hok t (by simp [ht]))
+    refine ⟨res, by simp [allcloseAll, hr0, h1], ?_⟩
     rw [h2]
-    constructor
-    · rintro ⟨hacc, hf⟩
-      simp only [Bool.and_eq_true] at hacc
-      exact ⟨hacc.1, List.Forall₂.cons (by rw [hr0, hacc.2]) hf⟩
-    · rintro ⟨hacc, hf⟩
-      cases hf with
-      | cons h1' h2' =>
-        rw [hr0] at h1'; simp only [Except.ok.injEq] at h1'
-        exact ⟨by simp [hacc, h1'], h2'⟩
+    simp only [Bool.and_eq_true, List.mem_cons, forall_eq_or_imp, hr0, Except.ok.injEq]
+    tauto
 
-/-- `allclose` on two quantity arrays of equal length (no pair raises): True iff every pair is close -/
-theorem allcloseArrays_spec (rtol : β) (atol : Option (PyVal β)) (a b : List (PyVal β))
-    (hok : List.Forall₂ (fun x y => ∃ r, allcloseScalar x y rtol atol = .ok r) a b) :
-    ∃ r, allcloseArrays false a b rtol atol = .ok r ∧
-      (r = true ↔ List.Forall₂ (fun x y => allcloseScalar x y rtol atol = .ok true) a b) := by
-  obtain ⟨r, h1, h2⟩ := allcloseArrays_go rtol atol a b true hok
-  refine ⟨r, ?_, by simpa using h2⟩
-  have hlen := hok.length_eq
-  simp [allcloseArrays, hlen, h1]
+/-- `allclose` on arrays / scalars with broadcasting: when the shapes broadcast and no pair raises, the answer is True iff EVERY
+    triple of the broadcast shape is close; shapes that do not broadcast give False -/
+theorem allcloseArrays_spec (rtol : β) (a b : ArrArg β) (atol : Option (ArrArg β)) :
+    (allcloseTriples a b atol = none → allcloseArrays a b rtol atol = .ok false) ∧
+    (∀ ts, allcloseTriples a b atol = some (.ok ts) →
+      (∀ t ∈ ts, ∃ r, allcloseScalar t.1 t.2.1 rtol t.2.2 = .ok r) →
+      ∃ r, allcloseArrays a b rtol atol = .ok r ∧ (r = true ↔ ∀ t ∈ ts, allcloseScalar t.1 t.2.1 rtol t.2.2 = .ok true)) := by
+  constructor
+  · intro h; simp [allcloseArrays, h]
+  · intro ts h hok
+    obtain ⟨r, h1, h2⟩ := allcloseAll_spec rtol ts true hok
+    exact ⟨r, by simp [allcloseArrays, h, h1], by simpa using h2⟩
+
+/-- the broadcast shape: equal lengths pair element-wise; a length-1 or scalar operand is paired with EVERY element of the other -/
+theorem allcloseTriples_shapes (x : PyVal β) (l : List (PyVal β)) (hl : l.length ≠ 1) (hd : ∀ y ∈ l, y.dims = x.dims) :
+    allcloseTriples (.arr l) (.arr l) none = some (.ok (l.zip (l.zip (List.replicate l.length none)))) ∧
+    allcloseTriples (.arr [x]) (.arr l) none = some (.ok ((List.replicate l.length x).zip (l.zip (List.replicate l.length none)))) ∧
+    allcloseTriples (.scalar x) (.arr l) none = some (.ok ((List.replicate l.length x).zip (l.zip (List.replicate l.length none)))) ∧
+    allcloseTriples (.arr l) (.arr [x]) none = some (.ok (l.zip ((List.replicate l.length x).zip (List.replicate l.length none)))) := by
+  have hex : ∀ {γ : Type} (m : List γ), m.length = l.length → expandList l.length m = m := by
+    intro γ m hm
+    match m, hm with
+    | [], _ => rfl
+    | [y], hm => exact absurd hm.symm hl
+    | _ :: _ :: _, _ => rfl
+  have h1 : (1 : ℕ) ≠ l.length := fun h => hl h.symm
+  have hex1 : ∀ {γ : Type} (y : γ), expandList l.length [y] = List.replicate l.length y := fun _ => rfl
+  have hexl : expandList l.length l = l := hex l rfl
+  have hexn : expandList l.length (List.replicate l.length (none : Option (PyVal β))) = List.replicate l.length none :=
+    hex _ (by simp)
+  have hexr : expandList l.length (List.replicate l.length x) = List.replicate l.length x := hex _ (by simp)
+  have any1 : (l.zip l).any (fun p => decide (p.1.asQuantity.unit.dims ≠ p.2.asQuantity.unit.dims)) = false := by
+    rw [List.any_eq_false]
+    intro p hp
+    have := List.of_mem_zip hp
+    obtain ⟨p1, p2⟩ := p
+    have h1' := hd p1 this.1
+    have h2' := hd p2 this.2
+    simp only [PyVal.dims] at h1' h2'
+    simp [h1', h2']
+  have any2 : ((List.replicate l.length x).zip l).any (fun p => decide (p.1.asQuantity.unit.dims ≠ p.2.asQuantity.unit.dims)) = false := by
+    rw [List.any_eq_false]
+    intro p hp
+    have := List.of_mem_zip hp
+    obtain ⟨p1, p2⟩ := p
+    have h1' : p1 = x := (List.mem_replicate.mp this.1).2
+    have h2' := hd p2 this.2
+    simp only [PyVal.dims] at h2'
+    simp [h1', h2']
+  have any3 : (l.zip (List.replicate l.length x)).any (fun p => decide (p.1.asQuantity.unit.dims ≠ p.2.asQuantity.unit.dims)) = false := by
+    rw [List.any_eq_false]
+    intro p hp
+    have := List.of_mem_zip hp
+    obtain ⟨p1, p2⟩ := p
+    have h1' : p2 = x := (List.mem_replicate.mp this.2).2
+    have h2' := hd p1 this.1
+    simp only [PyVal.dims] at h2'
+    simp [h1', h2']
+  refine ⟨?_, ?_, ?_, ?_⟩
+  · simp only [allcloseTriples, broadcastLen, ArrArg.len?, ArrArg.expand, if_true, Option.getD_some, hexl, hexn, any1, Bool.false_eq_true, if_false]
+  · simp only [allcloseTriples, broadcastLen, ArrArg.len?, ArrArg.expand, List.length_singleton, h1, if_false, if_true,
+      Option.getD_some, hexl, hex1, hexr, List.replicate_one, any2, Bool.false_eq_true]
+  · simp only [allcloseTriples, broadcastLen, ArrArg.len?, ArrArg.expand, Option.getD_some, Option.getD_none, hexl, hex1,
+      List.replicate_one, any2, Bool.false_eq_true, if_false, hexr]
+  · simp only [allcloseTriples, broadcastLen, ArrArg.len?, ArrArg.expand, List.length_singleton, hl, if_false, if_true,
+      Option.getD_some, hexl, hex1, hexn, hexr, any3, Bool.false_eq_true]
 
 end Ordered
 
